@@ -38,6 +38,7 @@ func runC18(c *core.Ctx, r *core.Reporter) {
 	c18rootback(c, r)
 	c18conv(c, r)
 	c18reuse(c, r)
+	c18converter(c, r)
 }
 
 // c18conv: in the Go data bridge an integer becomes a Lisp integer through value-preserving conversions only.
@@ -633,5 +634,52 @@ func c18reuse(c *core.Ctx, r *core.Reporter) {
 				r.Decide(len(setters) == 0, rule, key, c.Pos(in.Pos()), fmt.Sprintf("parse site; stores setting Reuse in the module: %v", setters))
 			}
 		}
+	}
+}
+
+// c18converter: the converter ojg applies while parsing (strings or numbers that look like times become times)
+// is derived from the *bag-time-format* / *bag-time-wrap* settings. A function that derives it assigns it on
+// every path, the path for "no format" included: a setting that was cleared must clear the converter too, or a
+// date-like string parsed afterwards comes back as a time and parse -> write -> parse is not the identity.
+func c18converter(c *core.Ctx, r *core.Reporter) {
+	const rule = "C18.converter"
+	r.Rule(rule, "a function that derives the parser's Converter option from the bag time settings (it stores into the Converter field of the ojg options) stores into it on every path from its entry to its return: clearing the setting clears the converter", 1)
+	for _, fn := range c.ModuleFuncs() {
+		if fn.Blocks == nil || fn.Pkg == nil || core.RelPkg(fn.Pkg.Pkg.Path()) != "pkg/bag" {
+			continue
+		}
+		stores := map[*ssa.BasicBlock]bool{}
+		var pos token.Pos
+		for _, b := range fn.Blocks {
+			for _, in := range b.Instrs {
+				if st, ok := in.(*ssa.Store); ok {
+					if fa, ok := st.Addr.(*ssa.FieldAddr); ok && fieldName(fa) == "Converter" {
+						stores[b] = true
+						pos = st.Pos()
+					}
+				}
+			}
+		}
+		if len(stores) == 0 {
+			continue
+		}
+		// a path from the entry to a return that avoids every storing block?
+		miss := false
+		seen := map[*ssa.BasicBlock]bool{}
+		stack := []*ssa.BasicBlock{fn.Blocks[0]}
+		for len(stack) > 0 {
+			b := stack[len(stack)-1]
+			stack = stack[:len(stack)-1]
+			if seen[b] || stores[b] {
+				continue
+			}
+			seen[b] = true
+			if _, ok := b.Instrs[len(b.Instrs)-1].(*ssa.Return); ok {
+				miss = true
+				break
+			}
+			stack = append(stack, b.Succs...)
+		}
+		r.Decide(!miss, rule, core.SSAName(fn), c.Pos(pos), fmt.Sprintf("some path returns without assigning the converter: %v", miss))
 	}
 }
